@@ -162,6 +162,7 @@ type sharedExpr struct {
 	call   ccall
 	expr   *fhirpath.Expression
 	opaque bool
+	broken bool              // Compile failed (never on a tree where the property holds)
 	pexpr  *patch.Expression // a shared FHIRPatch expression (then expr is nil)
 	pprog  patchProg
 }
@@ -231,18 +232,17 @@ func runStressChild(cfgPath, outPath string) {
 	}
 	for _, s := range shared {
 		setup.add(event{K: "cb", Call: s.call})
+		var cerr error
 		if s.call.API == "patch" {
-			pe, err := patch.Compile(s.call.Text)
-			if err != nil {
-				lib.Fatal("shared patch expression %q does not compile: %v", s.call.Text, err)
-			}
-			s.pexpr = pe
+			s.pexpr, cerr = patch.Compile(s.call.Text)
 		} else {
-			e, err := fhirpath.Compile(s.call.Text, append(scaffold(nil, 0), modelCompileOpts(s.call.Opts, s.call.Eid)...)...)
-			if err != nil {
-				lib.Fatal("shared expression %q does not compile: %v", s.call.Text, err)
-			}
-			s.expr = e
+			s.expr, cerr = fhirpath.Compile(s.call.Text, append(scaffold(nil, 0), modelCompileOpts(s.call.Opts, s.call.Eid)...)...)
+		}
+		if cerr != nil {
+			// the specification expects every shared expression to compile: the trace says what happened
+			s.broken = true
+			setup.add(event{K: "ce", Out: "cerr"})
+			continue
 		}
 		setup.add(event{K: "ce", Out: "ok"})
 	}
@@ -270,7 +270,16 @@ func runStressChild(cfgPath, outPath string) {
 		l.add(event{K: "ee", Out: o, T1: &t1})
 	}
 	envOnly := func(x int) []eopt { return []eopt{{O: "env", Name: "x", Val: x}} }
+	usable := []*sharedExpr{}
 	for _, s := range shared {
+		if !s.broken {
+			usable = append(usable, s)
+		}
+	}
+	if len(usable) == 0 {
+		usable = nil
+	}
+	for _, s := range usable {
 		for r := 1; r <= cfg.R; r++ {
 			if s.opaque {
 				for x := 1; x <= 3; x++ {
@@ -287,12 +296,12 @@ func runStressChild(cfgPath, outPath string) {
 	plans := make([][]plannedCall, cfg.G+1)
 	for g := 1; g <= cfg.G; g++ {
 		for i := 0; i < cfg.Calls; i++ {
-			if rng.Intn(8) == 0 {
+			if rng.Intn(8) == 0 || len(usable) == 0 {
 				cc := menu.Ccalls[rng.Intn(len(menu.Ccalls))]
 				cc.Eid = 1000*g + i + 1
 				plans[g] = append(plans[g], plannedCall{kind: "compile", cc: cc, r: 1 + rng.Intn(cfg.R)})
 			} else {
-				s := shared[rng.Intn(len(shared))]
+				s := usable[rng.Intn(len(usable))]
 				plans[g] = append(plans[g], plannedCall{kind: "eval", eid: s.call.Eid, r: 1 + rng.Intn(cfg.R), eopts: menu.Eopts[rng.Intn(len(menu.Eopts))]})
 			}
 		}
